@@ -391,3 +391,22 @@ def rule_into_impl_set(ctx):
     ctx.instance("into-set:per-field")
     if A.wsearch(t, f"{fields_v}.iter().zip({convs_v}).filter_map(|(&(i,field,_),convs)|{{convs.map(|convs|Expansion{{") is None and A.wsearch(t, f"{fields_v}.iter().zip({convs_v}).filter_map(|(&(i,field,_),convs)|convs.map(|convs|Expansion{{") is None:
         ctx.report("into-set:per-field", w, "field-level conversion lists no longer yield exactly one expansion each (zip of fields and their lists, `convs.map(..)`)", {})
+    # the whole-struct expansion is added exactly when a struct-level list exists (explicit or the fallback): no further condition
+    pushes = [(mc, ps) for mc, ps in A.method_calls(fn.block, "push") if mc["args"] and "Expansion" in A.render(mc["args"][0])]
+    ctx.instance("into-set:struct-push", sample=len(pushes))
+    if len(pushes) != 1:
+        ctx.report("into-set:struct-push", w, f"the whole-struct expansion is pushed at {len(pushes)} places (expected one, under `if let Some(attr) = struct_attr`)", {})
+    else:
+        from . import reject as RJ
+        from .. import guardf as GF
+
+        mc, ps = pushes[0]
+        fm = RJ.site_formula(fn, mc, ps)
+        want = ("is", "struct_attr", "Some")
+        ok = False
+        try:
+            ok = GF.equivalent(fm, GF.alpha_formula(want))[0]
+        except Exception:
+            ok = False
+        if not ok:
+            ctx.report("into-set:struct-push", ctx.where(f, mc), f"the whole-struct conversion is generated under `{GF.canon_text(fm)}` instead of 'a struct-level conversion list exists' (`struct_attr` is Some): the documented impl for the tuple of non-skipped fields is missing for some inputs (or appears without a list)", {})
